@@ -630,7 +630,7 @@ func notePhis(b, s *ssa.BasicBlock, t Tokens) {
 		if !ok {
 			break
 		}
-		if bt, isB := ph.Type().Underlying().(*types.Basic); !isB || bt.Kind() != types.Bool {
+		if !trackedPhi(ph) {
 			continue
 		}
 		k := phiKey(ph)
@@ -643,6 +643,39 @@ func notePhis(b, s *ssa.BasicBlock, t Tokens) {
 			t[k+strconv.Itoa(j)] = true
 		}
 	}
+}
+
+// trackedPhi: boolean phis (short-circuit conditions) and error/pointer phis
+// that are compared with nil (`err := f(); if err == nil { err = g() }`).
+func trackedPhi(ph *ssa.Phi) bool {
+	switch t := ph.Type().Underlying().(type) {
+	case *types.Basic:
+		return t.Kind() == types.Bool
+	case *types.Interface, *types.Pointer:
+		for _, r := range *ph.Referrers() {
+			if bo, ok := r.(*ssa.BinOp); ok && (bo.Op == token.EQL || bo.Op == token.NEQ) && (IsNilConst(bo.X) || IsNilConst(bo.Y)) {
+				return true
+			}
+		}
+	}
+	return false
+}
+
+// PathValue: inside a PathFlow Edge function, the value v stands for on the
+// path being extended — a tracked phi is replaced by its incoming value.
+func PathValue(v ssa.Value) ssa.Value {
+	for d := 0; d < 6; d++ {
+		ph, ok := v.(*ssa.Phi)
+		if !ok {
+			return v
+		}
+		j, known := pathPhiEdge(ph)
+		if !known {
+			return v
+		}
+		v = ph.Edges[j]
+	}
+	return v
 }
 
 // dropLocalPhis forgets, on leaving b, the phis of b that are used only inside b.
